@@ -140,7 +140,42 @@ func env() []string {
 
 func die2(format string, a ...any) {
 	fmt.Fprintf(os.Stderr, "MACHINERY: "+format+"\n", a...)
+	cleanupBuild()
 	os.Exit(2)
+}
+
+// buildDir is this invocation's own directory for binaries, the instrumented
+// copy of the repository and the temporary module file: two checks running at
+// the same time must not overwrite each other's build. (The Go build cache is
+// shared, so a rebuild of an unchanged tree only links.)
+func buildDir() string {
+	if d := os.Getenv("VERIF_BUILD_DIR"); d != "" {
+		// debugging scripts that want to keep the binaries
+		os.MkdirAll(d, 0o755)
+		return d
+	}
+	d := filepath.Join(verifRoot, ".build", fmt.Sprintf("p%d", os.Getpid()))
+	os.MkdirAll(d, 0o755)
+	return d
+}
+
+func cleanupBuild() {
+	os.RemoveAll(filepath.Join(verifRoot, ".build", fmt.Sprintf("p%d", os.Getpid())))
+	// directories left behind by invocations that were killed
+	ents, _ := os.ReadDir(filepath.Join(verifRoot, ".build"))
+	for _, e := range ents {
+		n := e.Name()
+		if !e.IsDir() || !strings.HasPrefix(n, "p") {
+			continue
+		}
+		pid, err := strconv.Atoi(n[1:])
+		if err != nil {
+			continue
+		}
+		if _, err := os.Stat(fmt.Sprintf("/proc/%d", pid)); err != nil {
+			os.RemoveAll(filepath.Join(verifRoot, ".build", n))
+		}
+	}
 }
 
 func goBin() string {
@@ -163,7 +198,7 @@ var autoNote string
 // does not build - the rewrite is mechanical and a change may contain a
 // construct it mishandles - the plain tree is used and the evidence says so.
 func build(engine string, race bool) string {
-	out := filepath.Join(verifRoot, ".build", engine)
+	out := filepath.Join(buildDir(), engine)
 	if race {
 		out += "-race"
 	}
@@ -175,8 +210,8 @@ func build(engine string, race bool) string {
 		repo = alt
 	}
 	if engine == "cachesim" && os.Getenv("VERIF_AUTOYIELD") != "0" {
-		inst := filepath.Join(verifRoot, ".build", "repo-auto")
-		tool := filepath.Join(verifRoot, ".build", "autoyield")
+		inst := filepath.Join(buildDir(), "repo-auto")
+		tool := filepath.Join(buildDir(), "autoyield")
 		tb := exec.Command(goBin(), "build", "-o", tool, "./cmd/autoyield")
 		tb.Dir = filepath.Join(verifRoot, "sim")
 		tb.Env = env()
@@ -214,10 +249,10 @@ func tryBuild(engine string, race bool, out, repo, tags string) (string, bool) {
 		if err != nil {
 			die2("read go.mod: %v", err)
 		}
-		altMod := filepath.Join(verifRoot, ".build", "alt.mod")
+		altMod := filepath.Join(buildDir(), "alt.mod")
 		os.WriteFile(altMod, bytes.ReplaceAll(mod, []byte("=> "+repoRoot), []byte("=> "+repo)), 0o644)
 		if sum, err := os.ReadFile(filepath.Join(repo, "go.sum")); err == nil {
-			os.WriteFile(filepath.Join(verifRoot, ".build", "alt.sum"), sum, 0o644)
+			os.WriteFile(filepath.Join(buildDir(), "alt.sum"), sum, 0o644)
 		}
 		args = append(args, "-modfile="+altMod)
 	}
@@ -973,9 +1008,13 @@ func main() {
 		if len(os.Args) < 4 {
 			die2("usage: driver check <id> quick|thorough")
 		}
-		os.Exit(check(os.Args[2], os.Args[3]))
+		rc := check(os.Args[2], os.Args[3])
+		cleanupBuild()
+		os.Exit(rc)
 	case "replay":
-		os.Exit(replay(os.Args[2]))
+		rc := replay(os.Args[2])
+		cleanupBuild()
+		os.Exit(rc)
 	case "build":
 		build("cachesim", false)
 		build("cachesim", true)
@@ -984,8 +1023,11 @@ func main() {
 				build("zsim", false)
 			}
 		}
+		cleanupBuild()
 	case "selftest":
-		os.Exit(selftest())
+		rc := selftest()
+		cleanupBuild()
+		os.Exit(rc)
 	default:
 		die2("unknown command %s", os.Args[1])
 	}
